@@ -125,6 +125,10 @@ pub trait ADNum: Clone + Sized {
     fn leaf(spec: &LeafSpec, earlier: &[Self]) -> Result<Self, String>;
     fn constant(c: f64) -> Self;
     fn to_rnum(&self) -> Result<RNum, String>;
+    /// second order only: the first stored pair (i, j, D_ij, D_ji) whose two halves disagree
+    fn asymmetry(&self) -> Option<(String, String, f64, f64)> {
+        None
+    }
     fn relationship(a: &Self, b: &Self) -> VarsRelationship;
     fn dd(op: Op2, a: Self, b: Self, own: u8) -> Self;
     fn df(op: Op2, a: Self, f: f64, own: u8) -> Self;
@@ -292,6 +296,28 @@ impl ADNum for Dual2 {
             }
         }
         Ok(RNum::from_parts(self.real(), &names, &g, Some(&h)))
+    }
+    fn asymmetry(&self) -> Option<(String, String, f64, f64)> {
+        let d = self.dual2();
+        let (n, m) = d.dim();
+        if n != m || n != self.vars().len() {
+            return None; // reported as a shape violation by to_rnum
+        }
+        let big = d.iter().fold(0.0f64, |a, x| if x.is_finite() { a.max(x.abs()) } else { a });
+        for i in 0..n {
+            for j in (i + 1)..n {
+                let (a, b) = (d[[i, j]], d[[j, i]]);
+                if a.to_bits() == b.to_bits() || (a.is_nan() && b.is_nan()) {
+                    continue;
+                }
+                // every operator builds the cross term from commutative products, so the halves are
+                // expected to agree exactly; allow a few ulps of slack for a differently rounded but correct form
+                if !((a - b).abs() <= 1e-13 * (a.abs() + b.abs()) + 1e-15 * big) {
+                    return Some((self.vars()[i].clone(), self.vars()[j].clone(), a, b));
+                }
+            }
+        }
+        None
     }
     impl_common!();
     fn describe(&self) -> Value {
@@ -962,6 +988,15 @@ pub fn run_tree<T: ADNum>(ctx: &mut Ctx, pid: &str, e: &E, specs: &[LeafSpec], n
             }
         }
         if second {
+            // the Hessian read back per pair is symmetric: the stored halves agree
+            ctx.asserted(1);
+            if let Some((x, y, a, b2)) = o.value.asymmetry() {
+                ctx.violation(
+                    &format!("{}|hessian-asymmetric|{}", pid, o.what),
+                    json!({"case": describe_case(e, specs), "node": o.what, "pair": [x, y], "observed": o.value.describe(), "stored_ij": fj(a), "stored_ji": fj(b2)}),
+                );
+                return true;
+            }
             let nv: Vec<&String> = names.iter().collect();
             for i in 0..nv.len() {
                 for j in i..nv.len() {
